@@ -171,6 +171,10 @@ Examples:
 			recoveredResults, recoveryErr := searchRecovery.RecoverFromSearchFailure(query, nil, db)
 			if recoveryErr == nil && len(recoveredResults) > 0 {
 				results = recoveredResults
+				// The recovery searches collect every match; honour --limit here too.
+				if len(results) > cfg.MaxResults {
+					results = results[:cfg.MaxResults]
+				}
 			}
 		}
 
